@@ -132,6 +132,7 @@ def r08_5(ctx, repo):
     T = Types(repo)
     E = Effects(repo)
     n = 0
+    precise = [None]
     for cls in COMPOSITES:
         if not repo.has_cls(cls):
             continue
@@ -140,8 +141,7 @@ def r08_5(ctx, repo):
             continue
         sub_fields = {f for (k, f) in T.fields if k in repo.mro(cls)}
         for m, fn in sorted(repo.cls(cls).methods.items()):
-            if m.startswith('_') or m == 'copy' or m in {
-                    x for ws in writers.values() for x in ws}:
+            if (m.startswith('_') and m != '__init__') or m == 'copy':
                 continue
             # reconfiguration events at statement granularity
             events = []     # (stmt index, description, changed getters)
@@ -156,6 +156,16 @@ def r08_5(ctx, repo):
                         if t is None or U(c.func.value) == 'self':
                             continue
                         ch = _changed_getters(repo, T, E, t, c.func.attr)
+                        if c.func.attr == 'set_n_ids' and \
+                                'PopulationModel' in T.candidates(t) + [
+                                    t[0]]:
+                            # precise least-fixpoint set (value dependence
+                            # on the argument), see wrappers.Changed
+                            if precise[0] is None:
+                                from .wrappers import Changed
+                                precise[0] = Changed(repo,
+                                                     'set_n_ids').getters
+                            ch = ch & precise[0]
                         if ch:
                             events.append((i, norm_stmt(c)[:50], ch, t))
                     if isinstance(c, ast.Assign):
@@ -199,7 +209,21 @@ def r08_5(ctx, repo):
                                 body[last]:
                             after |= w
             construct = '%s.%s' % (cls, m)
+            # a constructor has no earlier state: only caches it computes
+            # itself *before* the reconfiguration can be stale
+            before_last = set()
+            for s in body[:last]:
+                for a in ast.walk(s):
+                    if isinstance(a, (ast.Assign, ast.AugAssign)):
+                        tg = a.targets if isinstance(a, ast.Assign) \
+                            else [a.target]
+                        for t in tg:
+                            f0 = _self_field(t)
+                            if f0:
+                                before_last.add(f0)
             for f, srcs in sorted(caches.items()):
+                if m == '__init__' and f not in before_last:
+                    continue
                 affected = []
                 for i, desc, ch, t in events:
                     for g, gt in srcs:
